@@ -136,7 +136,7 @@ func ToParams(protoParams *Params) (*channel.Params, error) {
 
 	var aux channel.Aux
 	copy(aux[:], protoParams.GetAux())
-	params := channel.NewParamsUnsafe(
+	return channel.NewParams(
 		protoParams.GetChallengeDuration(),
 		parts,
 		app,
@@ -145,8 +145,6 @@ func ToParams(protoParams *Params) (*channel.Params, error) {
 		protoParams.GetVirtualChannel(),
 		aux,
 	)
-
-	return params, nil
 }
 
 // ToState converts a protobuf State to a channel.State.
